@@ -787,7 +787,7 @@ func specHexVal(b byte) byte {
 // returns tape(cursor) and advances the cursor by one; Peek does not move it;
 // refilling the buffer (any number of bytes, also zero) keeps both facts.
 //@ define cursor(s) = tpos() - avail(s)
-//@ define onTape(s) = (forall k :: 0 <= k && k < len(s.peek) ==> view(s, k) == tape(tpos() - avail(s) + k)) && (forall j :: s.pos <= j && j < s.used ==> s.buf[j] == tape(tpos() - s.used + j))
+//@ define onTape(s) = forall j :: tpos() - avail(s) <= j && j < tpos() ==> (j - (tpos() - avail(s)) < len(s.peek) ==> s.peek[j - (tpos() - avail(s))] == tape(j)) && (j - (tpos() - avail(s)) >= len(s.peek) ==> s.buf[s.pos + (j - (tpos() - avail(s)) - len(s.peek))] == tape(j))
 //@ define bufCursor(s) = tpos() - (s.used - s.pos)
 //@ define bufOnTape(s) = forall j :: s.pos <= j && j < s.used ==> s.buf[j] == tape(tpos() - s.used + j)
 
